@@ -95,6 +95,13 @@ def build(d):
         x = np.where(bad, x + (1.0 if big else 0.5), x).astype(np.float32)
         if len({x[i].tobytes() for i in range(n)}) == n and all(np.any(x[i] != 0) for i in range(n)):
             break
+    # large common offset of inputs and reference (a Euclidean distance between an input and its masked copy does not
+    # depend on it; an implementation that expands ||x||^2 - 2<x,s> + ||s||^2 in float32 does)
+    off = float(d.get("offset", 0) or 0)
+    if off:
+        x = (x + off).astype(np.float32)
+        refv = [v + off for v in refv]
+        ref = np.array(refv, dtype=np.float32)
     # kernel width actually used: exp(-D^2/w^2) must stay a normal float32 for every possible sample
     refflat = np.tile(np.array(refv, dtype=np.float64), cells)
     d2max = max(float(np.sum((x[i].reshape(-1).astype(np.float64) - refflat) ** 2)) for i in range(n))
@@ -281,6 +288,9 @@ def run_case(ctx, d):
                               "targets": enc(r["targets"]), "weights": enc(w_model), "mapping": [int(v) for v in mapping]})
         full_rank = rw["coef"] is not None
         ctx.count("full_rank", full_rank)
+        if d.get("offset"):
+            full_rank = False       # offset family: the float32 fit of targets of magnitude 1e4 is outside the stated tolerance; weights / queries only
+            ctx.count("offset_cases", 1)
         if full_rank:
             ctx.check_corr("lime_coef_model", coef_impl, rw["coef"], d, rtol=C_RTOL, atol=C_ATOL)
             ctx.check_corr("lime_explanation_model", out[i].reshape(-1), rw["broadcast"], d, rtol=C_RTOL, atol=C_ATOL)
@@ -296,7 +306,7 @@ def run_case(ctx, d):
         ctx.check_pred("weights-documented-kernel", fitw, [fr(v) for v in w_spec], d, rtol=W_RTOL, atol=1e-37)
         rs = ctx.driver.call({"op": "wls", "F": F, "alpha": enc(alpha), "design": enc(samples.tolist()),
                               "targets": enc(rq["targets"]), "weights": enc(w_spec), "mapping": [int(v) for v in mapping]})
-        if rs["coef"] is not None:
+        if rs["coef"] is not None and not d.get("offset"):
             ctx.check_pred("coef-is-wls-on-own-queries", out[i].reshape(-1), rs["broadcast"], d, rtol=C_RTOL, atol=C_ATOL)
             ctx.check_pred("coef_-is-minimiser", coef_impl, rs["coef"], d, rtol=C_RTOL, atol=C_ATOL)
         # broadcast: every cell carries the coefficient of its segment
@@ -465,6 +475,8 @@ def gen_cases(ctx):
              "case_seed": int(rng.integers(1 << 31))}
         if method == "kshap":
             d["mode"], d["width"], d["alpha"] = "euclidean", 1.0, 0.0
+        elif d["mode"] == "euclidean" and rng.random() < 0.2:
+            d.update(offset=4096, additive=True, ref="custom")
         if t >= nexp:
             # exhaustive batch-size sweep of one small configuration: None and every b in 1..nb+1
             d["method"] = "lime" if (t - nexp) % 2 == 0 else "kshap"
